@@ -788,6 +788,16 @@ def judge(ctx, name, vw, widths, offsets, shape, seed, amp, res, stats, errTol=1
             stats["worst_asym_where"] = (tag, vw, errTol, "back %.1e front %.1e" % (eb, ef))
         ctx.count("asymptote_checked", nontrivial=False, bucket=br)
         tol_a = TOL_ASYM if shape == "none" else 10 * TOL_ASYM   # moments do not vanish at the ends
+        p0 = res["points"][0]
+        if eb > tol_a and br == "detonation" and p0["tmin"] < res["Tm"] * (1 - 1e-7):
+            # The hydrodynamic state (T-, v-) itself lies ABOVE the minimiser of the LHS at the
+            # last point behind the wall (v- is supersonic for the equilibrium sound speed but
+            # subsonic for the sound speed at fixed field); by theorem branch_rule the detonation
+            # rule can only return roots <= minimiser, so it cannot tend to (T-, -v-).
+            stats.setdefault("finding2", []).append(dict(
+                rep, Tminus=res["Tm"], vminus=res["vm"], T_back=T[0], v_back=v[0],
+                minimiser_back=p0["tmin"], err=eb))
+            eb = 0.0
         if eb > tol_a:
             ctx.fail_input("behind the wall the profile tends to (T=%.6g, v=%.6g) instead of "
                            "(T-=%.6g, -v-=%.6g) [%s vw=%g, (T+-Tn)/Tn=%.2e]" % (
@@ -863,6 +873,25 @@ def direct_validation(ctx):
                 stats.get("nosuccess", 0)))
     ctx.log("worst conserving T33 residual at", stats.get("worst33_where"),
             "; worst asymptote at", stats.get("worst_asym_where"))
+    f2 = stats.get("finding2", [])
+    if f2:
+        f2.sort(key=lambda d: -d["err"])
+        top = f2[0]
+        what = ("detonation whose v- lies between the equilibrium and the fixed-field sound "
+                "speed: the hydrodynamic T-=%.8g is ABOVE the minimiser %.8g of the Eq.(20) LHS "
+                "behind the wall, the detonation rule takes the root below it and the profile "
+                "tends to (T=%.8g, v=%.6g) instead of (T-, -v-=%.6g); T30/T33 still conserved "
+                "(model %s vw=%g; %d such profiles)" % (
+                    top["Tminus"], top["minimiser_back"], top["T_back"], top["v_back"],
+                    -top["vminus"], top["model"], top["vw"], len(f2)))
+        ctx.cov["finding_detonation_wrong_root"] = dict(count=len(f2), worst=top)
+        ctx.write("finding_detonation_wrong_root.json", json.dumps(top, indent=1, default=float))
+        if registered(ctx, "detonation-root-above-minimiser"):
+            ctx.fail_input(what, top, key="detonation-root-above-minimiser")
+        else:
+            ctx.log("FINDING (not registered in known_findings.json, not counted):", what)
+            ctx.log("  replay: ./check C04 --replay",
+                    os.path.join(ctx.bdir, "finding_detonation_wrong_root.json"))
     # the RECORDED input of the known finding is replayed on every run (deterministic)
     recorded = []
     rpath = os.path.join(vlib.VERIF, "findings", "C04_success_without_root.json")
